@@ -1,14 +1,263 @@
 package main
 
-// selftest.go — rule-sensitivity self-test (thorough tier) and replay. Filled in below.
+// selftest.go — rule-sensitivity self-test (thorough tier): a catalogue of seeded single-site breakages (and of
+// behaviour-preserving variants) is applied through go/packages overlays — no copy of /repo is written — in
+// sub-processes; every breaking variant must be reported by the expected rule, every preserving variant by none.
 
-import "fmt"
+import (
+	"encoding/json"
+	"fmt"
+	"os"
+	"os/exec"
+	"path/filepath"
+	"sort"
+	"strings"
+	"sync"
+)
 
-func runSelfTest(prop, repo, verif string, seed int, standalone bool) int {
-	fmt.Println("selftest: not built yet")
-	return 0
+type variant struct {
+	Name   string `json:"name"`
+	Prop   string `json:"prop"`   // property whose check is run
+	Rule   string `json:"rule"`   // expected rule id (prefix), "none" = must not be flagged
+	File   string `json:"file"`   // path relative to the repository root
+	Old    string `json:"old"`    // exact substring, must occur exactly once
+	New    string `json:"new"`    // replacement
+	File2  string `json:"file2,omitempty"`
+	Old2   string `json:"old2,omitempty"`
+	New2   string `json:"new2,omitempty"`
+	Suite  string `json:"suite"`  // observed outcome of the unedited test suite on the variant: pass|fail|unknown
+	Origin string `json:"origin"` // calibration | revert-of-fix | seeded | instance-class | preserving
 }
 
-func thoroughExtras(c *Ctx, pc *propCheck, repo, verif string, seed int) {}
+type variantResult struct {
+	Name    string   `json:"name"`
+	Rule    string   `json:"expected_rule"`
+	Status  string   `json:"status"` // flagged | silent(expected) | MISSED | FALSE-ALARM | skipped | error
+	Flagged []string `json:"flagged_rules"`
+	Detail  string   `json:"detail,omitempty"`
+}
 
-func replayFile(c *Ctx, path string) {}
+func loadCatalogue(verif string) ([]variant, error) {
+	var all []variant
+	files, _ := filepath.Glob(filepath.Join(verif, "selftest", "*.json"))
+	sort.Strings(files)
+	for _, f := range files {
+		b, err := os.ReadFile(f)
+		if err != nil {
+			return nil, err
+		}
+		var vs []variant
+		if err := json.Unmarshal(b, &vs); err != nil {
+			return nil, fmt.Errorf("%s: %v", f, err)
+		}
+		all = append(all, vs...)
+	}
+	return all, nil
+}
+
+func applyOne(repo, file, old, new string, dir string, idx int) (string, string, error) {
+	path := filepath.Join(repo, file)
+	b, err := os.ReadFile(path)
+	if err != nil {
+		return "", "", err
+	}
+	s := string(b)
+	if strings.Count(s, old) != 1 {
+		return "", "", fmt.Errorf("anchor occurs %d times", strings.Count(s, old))
+	}
+	out := filepath.Join(dir, fmt.Sprintf("v%d_%s", idx, filepath.Base(file)))
+	if err := os.WriteFile(out, []byte(strings.Replace(s, old, new, 1)), 0o644); err != nil {
+		return "", "", err
+	}
+	return path, out, nil
+}
+
+func runVariants(prop, repo, verif string, vs []variant) []variantResult {
+	self, _ := os.Executable()
+	dir, err := os.MkdirTemp("", "ysgocheck-selftest-")
+	if err != nil {
+		return []variantResult{{Name: "tempdir", Status: "error", Detail: err.Error()}}
+	}
+	defer os.RemoveAll(dir)
+	results := make([]variantResult, len(vs))
+	sem := make(chan struct{}, 8)
+	var wg sync.WaitGroup
+	for i, v := range vs {
+		wg.Add(1)
+		go func(i int, v variant) {
+			defer wg.Done()
+			sem <- struct{}{}
+			defer func() { <-sem }()
+			res := variantResult{Name: v.Name, Rule: v.Rule}
+			defer func() { results[i] = res }()
+			args := []string{"-prop", prop, "-repo", repo, "-verif", verif, "-json", "-noevidence"}
+			orig, repl, err := applyOne(repo, v.File, v.Old, v.New, dir, i*2)
+			if err != nil {
+				res.Status, res.Detail = "skipped", "patch does not apply to the current tree: "+err.Error()
+				return
+			}
+			args = append(args, "-overlay", orig+"="+repl)
+			if v.File2 != "" {
+				orig2, repl2, err := applyOne(repo, v.File2, v.Old2, v.New2, dir, i*2+1)
+				if err != nil {
+					res.Status, res.Detail = "skipped", "second patch does not apply: "+err.Error()
+					return
+				}
+				args = append(args, "-overlay", orig2+"="+repl2)
+			}
+			cmd := exec.Command(self, args...)
+			cmd.Env = append(os.Environ(), "VERIF_TIER=quick")
+			out, _ := cmd.CombinedOutput()
+			var jo struct {
+				Failed    []Obligation `json:"failed"`
+				Undecided []string     `json:"undecided"`
+			}
+			found := false
+			for _, line := range strings.Split(string(out), "\n") {
+				if strings.HasPrefix(line, "{\"property\"") {
+					if json.Unmarshal([]byte(line), &jo) == nil {
+						found = true
+					}
+				}
+			}
+			if !found {
+				res.Status = "error"
+				res.Detail = "variant could not be analysed (does it type-check?): " + firstLine(strings.TrimSpace(string(out)))
+				return
+			}
+			seen := map[string]bool{}
+			for _, o := range jo.Failed {
+				if !seen[o.Rule] {
+					seen[o.Rule] = true
+					res.Flagged = append(res.Flagged, o.Rule)
+				}
+			}
+			sort.Strings(res.Flagged)
+			if v.Rule == "none" {
+				if len(jo.Failed) == 0 && len(jo.Undecided) == 0 {
+					res.Status = "silent(expected)"
+				} else {
+					res.Status = "FALSE-ALARM"
+					if len(jo.Failed) > 0 {
+						res.Detail = jo.Failed[0].Rule + " " + jo.Failed[0].Key + ": " + jo.Failed[0].How
+					} else {
+						res.Detail = "undecided: " + jo.Undecided[0]
+					}
+				}
+				return
+			}
+			hit := false
+			for _, want := range strings.Split(v.Rule, "|") {
+				for r := range seen {
+					if strings.HasPrefix(r, want) {
+						hit = true
+					}
+				}
+			}
+			if hit {
+				res.Status = "flagged"
+				for _, o := range jo.Failed {
+					res.Detail = o.Pos + " " + o.How
+					break
+				}
+			} else {
+				res.Status = "MISSED"
+				res.Detail = fmt.Sprintf("rules that fired: %v; undecided: %v", res.Flagged, jo.Undecided)
+			}
+		}(i, v)
+	}
+	wg.Wait()
+	return results
+}
+
+// runSelfTest runs the catalogue entries of one property; returns 0 if the checker kept its teeth.
+func runSelfTest(prop, repo, verif string, seed int, standalone bool) int {
+	res, code := selfTest(prop, repo, verif)
+	for _, r := range res {
+		fmt.Printf("  selftest %-18s %-60s expect=%-8s %s\n", r.Status, r.Name, r.Rule, firstLine(r.Detail))
+	}
+	return code
+}
+
+func selfTest(prop, repo, verif string) ([]variantResult, int) {
+	all, err := loadCatalogue(verif)
+	if err != nil {
+		return []variantResult{{Name: "catalogue", Status: "error", Detail: err.Error()}}, 2
+	}
+	var vs []variant
+	for _, v := range all {
+		if v.Prop == prop {
+			vs = append(vs, v)
+		}
+	}
+	res := runVariants(prop, repo, verif, vs)
+	code := 0
+	for _, r := range res {
+		switch r.Status {
+		case "MISSED", "FALSE-ALARM", "error":
+			code = 2
+		}
+	}
+	return res, code
+}
+
+func thoroughExtras(c *Ctx, pc *propCheck, repo, verif string, seed int) {
+	res, code := selfTest(c.Prop, repo, verif)
+	applied, skipped, flagged, silent := 0, 0, 0, 0
+	for _, r := range res {
+		switch r.Status {
+		case "skipped":
+			skipped++
+		case "flagged":
+			applied++
+			flagged++
+		case "silent(expected)":
+			applied++
+			silent++
+		default:
+			applied++
+		}
+	}
+	c.Extra["self_test"] = map[string]interface{}{
+		"variants": len(res), "applied": applied, "skipped_patch_does_not_apply": skipped, "breaking_variants_flagged": flagged,
+		"preserving_variants_silent": silent, "results": res,
+		"note": "each variant is the current /repo source with one seeded edit, analysed through a go/packages overlay in a sub-process; a breaking variant the rule misses, or a preserving variant it flags, makes the run undecided (exit 2)",
+	}
+	for _, r := range res {
+		if r.Status == "MISSED" || r.Status == "FALSE-ALARM" || r.Status == "error" {
+			c.undecided("selftest", fmt.Sprintf("%s: variant %q (expected %s): %s", r.Status, r.Name, r.Rule, r.Detail))
+		}
+	}
+	_ = code
+	if pc.thorough != nil {
+		pc.thorough(c)
+	}
+}
+
+func replayFile(c *Ctx, path string) {
+	b, err := os.ReadFile(path)
+	if err != nil {
+		fmt.Printf("replay: cannot read %s: %v\n", path, err)
+		return
+	}
+	var in struct {
+		Violations []Obligation `json:"violations"`
+	}
+	if err := json.Unmarshal(b, &in); err != nil {
+		fmt.Printf("replay: %v\n", err)
+		return
+	}
+	for _, v := range in.Violations {
+		status := "no longer enumerated (construct gone)"
+		for _, o := range c.Obs {
+			if o.Rule == v.Rule && o.Key == v.Key {
+				if o.OK {
+					status = "now discharged: " + o.How
+				} else {
+					status = "STILL FAILS at " + o.Pos + ": " + o.How
+				}
+			}
+		}
+		fmt.Printf("replay %s [%s] recorded at %s -> %s\n", v.Rule, v.Key, v.Pos, status)
+	}
+}
